@@ -41,6 +41,12 @@ Hash == LET h(i) == (path[i].a \div 90) + (IF path[i].r THEN 4 ELSE 0)
                     + (IF path[i].loc = <<0,0>> THEN 0 ELSE IF path[i].loc[1] < 0 THEN 8 ELSE 16)
         IN IF Len(path) = 0 THEN 0 ELSE h(1) + (5 * (IF Len(path) > 1 THEN h(2) ELSE 0))
               + (7 * (IF Len(path) > 2 THEN h(3) ELSE 0)) + (11 * (IF Len(path) > 3 THEN h(4) ELSE 0))
+\* Siblings: a layout may hold several instances; each is composed onto the PARENT's map only.  At every level of the
+\* chain two decoy instances of a marker cell stand before and after the chain instance; their maps are emitted too.
+Decoy1 == [loc |-> <<4, -6>>, r |-> TRUE, a |-> 90]
+Decoy2 == [loc |-> <<-2, 9>>, r |-> FALSE, a |-> 270]
+DecoyMaps(d) == [i \in 1..Len(path) |-> Cascade(PathMap(SubSeq(path, 1, i - 1)), FromInstance(d))]
 Emit == (Len(path) >= 1 /\ (Len(path) < Depth \/ Depth < 4 \/ Hash % SampleMod = 0)) =>
-          PrintT(<<"CASE", ToJson([chain |-> path, m |-> acc.m, t |-> acc.t])>>)
+          PrintT(<<"CASE", ToJson([chain |-> path, m |-> acc.m, t |-> acc.t,
+                                   d1 |-> Decoy1, d2 |-> Decoy2, dec1 |-> DecoyMaps(Decoy1), dec2 |-> DecoyMaps(Decoy2)])>>)
 =============================================================================
